@@ -127,8 +127,47 @@ func c20Ownership(r *eng.Run) {
 		}
 		w.Cell("pure/ownership-of-returned-memory", true)
 	})
+	// big.Int / big.Rat / big.Float results: mutate what was returned (in place, through every pointer it exposes),
+	// call again, compare. A result that is (or shares words with) a cached table entry fails here.
+	r.Seq(func(w *eng.W) {
+		var bvals []dec.Decimal
+		for _, k := range []int{0, 1, 2, 17, 18, 19, 20, 38, 39, 40, 100, 6111} {
+			bvals = append(bvals, Mk(false, big.NewInt(1), k), Mk(true, big.NewInt(1), -k%6177))
+		}
+		bvals = append(bvals, Mk(false, new(big.Int), 0), Mk(false, big.NewInt(15), -1), Mk(true, ref.Cmax, 0), Mk(false, ref.Cmax, ref.MaxQ), Mk(false, big.NewInt(3), ref.MinQ), Mk(false, pow2(64), 0), Mk(false, pow2(113), -5))
+		for _, x := range bvals {
+			for _, y := range bvals {
+				w.Set2("ownership:big", "", B(x), B(y))
+				i1 := x.Int(nil)
+				r1 := x.Rat(nil)
+				f1 := x.Float(nil)
+				wi, wr, wf := i1.String(), r1.String(), f1.Text('p', 0)
+				i2, r2, f2 := y.Int(nil), y.Rat(nil), y.Float(nil)
+				wi2, wr2, wf2 := i2.String(), r2.String(), f2.Text('p', 0)
+				if i1.String() != wi || r1.String() != wr || f1.Text('p', 0) != wf {
+					w.R.Fail(eng.Case{Op: "pure:ownership:Int/Rat/Float", Args: []string{bstr(x), bstr(y)}, Got: i1.String() + " " + r1.String() + " " + f1.Text('p', 0), Want: wi + " " + wr + " " + wf + " (first results changed while the second calls ran)"})
+					continue
+				}
+				// mutate the first results in place
+				i1.Lsh(i1, 3).Add(i1, big.NewInt(777))
+				r1.Num().Add(r1.Num(), big.NewInt(5))
+				r1.Denom().Add(r1.Denom(), big.NewInt(2))
+				f1.SetMantExp(f1, 7).Neg(f1)
+				if i2.String() != wi2 || r2.String() != wr2 || f2.Text('p', 0) != wf2 {
+					w.R.Fail(eng.Case{Op: "pure:ownership:Int/Rat/Float", Args: []string{bstr(x), bstr(y)}, Got: i2.String() + " " + r2.String() + " " + f2.Text('p', 0), Want: wi2 + " " + wr2 + " " + wf2 + " (second results share memory with the first)"})
+					continue
+				}
+				i3, r3, f3 := x.Int(nil), x.Rat(nil), x.Float(nil)
+				w.EvalN(9)
+				if i3.String() != wi || r3.String() != wr || f3.Text('p', 0) != wf {
+					w.R.Fail(eng.Case{Op: "pure:ownership:Int/Rat/Float", Args: []string{bstr(x), bstr(y)}, Got: i3.String() + " " + r3.String() + " " + f3.Text('p', 0), Want: wi + " " + wr + " " + wf + " (same calls return something else after the caller modified earlier results)"})
+				}
+			}
+		}
+		w.Cell("pure/ownership-of-big-results", true)
+	})
 	r.Phase("purity: ownership of returned memory", t0, nil)
-	r.Require("pure/ownership-of-returned-memory")
+	r.Require("pure/ownership-of-returned-memory", "pure/ownership-of-big-results")
 }
 
 // c20StructuredPairs: totality of the binary arithmetic entry points on operand pairs whose product, quotient or
@@ -152,6 +191,9 @@ func c20StructuredPairs(r *eng.Run) {
 			for j := 0; j <= 34; j++ {
 				for _, m := range []int64{1, 2, 5} {
 					b := new(big.Int).Mul(big.NewInt(m), ref.Pow10(j))
+					if b.Cmp(ref.Cmax) > 0 {
+						continue
+					}
 					x, y := Mk(false, a, -pad), Mk(j%2 == 1, b, -j)
 					w.Set2("total:structured-pairs", "", B(x), B(y))
 					pn, msg := guard(func() {
